@@ -289,8 +289,10 @@ def gen_direct(D, F=None, max_tasks=8, prefix='t', name='wf'):
     # asynchronous actions (complete only through an operator command)
     if F.get('async_actions'):
         for nm in names:
-            if D.bool(0.15) and not prog['tasks'][nm].get('with-items'):
+            if D.bool(F.get('async_p', 0.15)) and \
+                    not prog['tasks'][nm].get('with-items'):
                 outcomes[nm] = [['never']]
+                prog['tasks'][nm]['action'] = 'std.async_noop'
 
     # rendering forms
     for nm in prog['order']:
